@@ -23,6 +23,40 @@ func cfgGC2() *store.VerifCfg {
 		BodyMax: 255, BodyInC: 4096, MaxReq: 3, Hash: hashAB}
 }
 
+// cfgGC3: three records per file; a file with one or two records is "not full" (size < 768-255), so a pass can start
+// appending to an earlier file and switch onto the file it is reading when that one overflows
+func cfgGC3() *store.VerifCfg {
+	return &store.VerifCfg{Name: "gc-f768-b255-switch", NumBucket: 1, TreeHeight: 3, DataFileMax: 768, SplitCap: 1024, BufIOCap: 4096,
+		BodyMax: 255, BodyInC: 4096, MaxReq: 3, Hash: hashAB}
+}
+
+// symmetricKeys prunes histories that differ only by a renaming of the keys: key number i may be used for the first
+// time only after keys 0..i-1 have been used (GC never looks at hash positions, so the keys are interchangeable here).
+func symmetricKeys(order []string, hist []Op, op Op) bool {
+	if op.Key == "" {
+		return false
+	}
+	idx := -1
+	for i, k := range order {
+		if k == op.Key {
+			idx = i
+		}
+	}
+	if idx <= 0 {
+		return false
+	}
+	used := map[string]bool{}
+	for _, o := range hist {
+		used[o.Key] = true
+	}
+	for _, k := range order[:idx] {
+		if !used[k] {
+			return true
+		}
+	}
+	return false
+}
+
 // dataFiles returns chunk id -> content for bucket 0's directory.
 func (m *Machine) dataFiles(bucket int) map[int][]byte {
 	out := map[int][]byte{}
@@ -41,6 +75,8 @@ func (m *Machine) dataFiles(bucket int) map[int][]byte {
 // gcStep runs one GC request to completion, optionally with the C18 oracle.
 func gcStep(m *Machine, md *Model, o Op, step int, reclaim bool) *Mismatch {
 	b, e, mg, bkt := o.A[0], o.A[1], o.A[2] != 0, 0
+	m.S.Drain()
+	m.St.VerifFlush(true)
 	m.S.Drain()
 	Tick()
 	before := m.dataFiles(bkt)
@@ -215,6 +251,8 @@ func gcExec(reclaim bool) func(x *XSpec, s *vsched.Sched, hist []Op, wantDump bo
 // and returns one GC letter per distinct resolved range and merge flag.
 func acceptedGCs(m *Machine, bkt int) []Op {
 	m.S.Drain()
+	m.St.VerifFlush(true) // a GC letter = drain, flush, request (an unflushed head hides the file before it from the range check)
+	m.S.Drain()
 	Tick()
 	head := m.St.VerifNewHead(bkt)
 	seen := map[[2]int]bool{}
@@ -287,18 +325,28 @@ func gcSpecs(prop string, tier string, reclaim bool) []*XSpec {
 	layout := perKey(keys, Op{K: "set", V: "s"}, Op{K: "del"}, Op{K: "set", V: "x300"})
 	post := []Op{{K: "restart", A: []int{0}}, {K: "restart", A: []int{1}}, {K: "restart", A: []int{2}}, {K: "restart", A: []int{3}}}
 	al := append(append([]Op{}, layout...), post...)
-	small := append(append([]Op{}, perKey(keys, Op{K: "set", V: "s"}, Op{K: "del"})...), post...)
+	keys3 := []string{"a", "b", "c"}
+	small := append(append(perKey(keys3, Op{K: "set", V: "s"}), Op{K: "del", Key: "a"}), post...)
+	keys4 := []string{"a", "b", "c", "d"}
+	sets4 := append(perKey(keys4, Op{K: "set", V: "s"}), post...)
 	mk := func(c *store.VerifCfg, L int, post int) *XSpec {
 		al := al
+		ks := keys
+		pr := gcPrune(L, post, c.BodyMax < 300)
 		if c.BodyMax < 300 {
-			al = small
+			al, ks = small, keys3
+			if c.DataFileMax > 512 {
+				al, ks = sets4, keys4
+			}
+			base := pr
+			pr = func(hist []Op, op Op) bool { return base(hist, op) || symmetricKeys(ks, hist, op) }
 		}
-		return &XSpec{Property: prop, Name: fmt.Sprintf("%s-L%d-post%d", c.Name, L, post), Cfg: c, Alphabet: al, Depth: L + 4, Keys: keys, Exec: gcExec(reclaim), Prune: gcPrune(L, post, c.BodyMax < 300)}
+		return &XSpec{Property: prop, Name: fmt.Sprintf("%s-L%d-post%d", c.Name, L, post), Cfg: c, Alphabet: al, Depth: L + 4, Keys: ks, Exec: gcExec(reclaim), Prune: pr}
 	}
 	if tier == "quick" {
 		return []*XSpec{mk(cfgGC1(), 3, 2), mk(cfgGC2(), 5, 1), mk(cfgGC1(), 4, 1)}
 	}
-	return []*XSpec{mk(cfgGC1(), 4, 2), mk(cfgGC2(), 5, 2), mk(cfgGC1(), 5, 1), mk(cfgGC2(), 6, 1)}
+	return []*XSpec{mk(cfgGC1(), 4, 2), mk(cfgGC2(), 5, 2), mk(cfgGC1(), 5, 1), mk(cfgGC2(), 7, 1), mk(cfgGC3(), 9, 0)}
 }
 
 func C03(job *Job, r *Report) {
